@@ -737,17 +737,21 @@ class Message:
                 "Percent encoded strings in CoAP URIs need to be UTF-8 encoded"
             ) from e
 
-        self.remote = UndecidedRemote(parsed.scheme, parsed.netloc)
-
         try:
             _ = parsed.port
         except ValueError as e:
             raise error.MalformedUrlError("Port must be numeric") from e
 
+        try:
+            self.remote = UndecidedRemote(parsed.scheme, parsed.netloc)
+        except ValueError as e:
+            # eg. IP literals that are not IPv6 addresses
+            raise error.MalformedUrlError("Host or port not understood") from e
+
         is_ip_literal = parsed.netloc.startswith("[") or (
             parsed.hostname.count(".") == 3
             and all(c in "0123456789." for c in parsed.hostname)
-            and all(int(x) <= 255 for x in parsed.hostname.split("."))
+            and all(x and int(x) <= 255 for x in parsed.hostname.split("."))
         )
 
         if set_uri_host and not is_ip_literal:
